@@ -529,6 +529,14 @@ impl Memfs {
 
             // Recreate links if were not following them
             if !cp.follow && src.is_symlink() {
+                // Copying into a directory might require creating it first
+                if !guard.contains_entry(&dst_path.dir()?) {
+                    let mode = match dir_mode {
+                        Some(x) => Some(x),
+                        None => Some(self._clone_entry(guard, src.path().dir()?)?.mode()),
+                    };
+                    self._mkdir_m(guard, &dst_path.dir()?, mode)?;
+                }
                 self._symlink(guard, dst_path, src.alt())?;
             } else {
                 // `follow`, i.e. pass through to target for links else get a fresh
